@@ -23,6 +23,12 @@ inductive F64
   | nan
 deriving DecidableEq, Repr
 
+/-- the values of the format: zero, normal numbers (53-bit significand), subnormal numbers -/
+def F64.Canonical : F64 → Prop
+  | .fin _ m q =>
+    (m = 0 ∧ q = -1074) ∨ (2 ^ 52 ≤ m ∧ m < 2 ^ 53 ∧ -1074 ≤ q ∧ q ≤ 971) ∨ (0 < m ∧ m < 2 ^ 52 ∧ q = -1074)
+  | _ => True
+
 /-- `round(n / d)` to the nearest integer, ties to even -/
 def divRoundHalfEven (n d : Nat) : Nat :=
   let qt := n / d
@@ -54,13 +60,17 @@ def roundRatio (n d : Nat) : Option (Nat × Int) :=
 /-- number of decimal digits of `n` (`0` has one) -/
 def numDigits (n : Nat) : Nat := (natStr n).length
 
+/-- the exact decimal `c × 10^x` as a ratio of naturals -/
+def decRatio (c : Nat) (x : Int) : Nat × Nat :=
+  if x ≥ 0 then (c * 10 ^ x.toNat, 1) else (c, 10 ^ (-x).toNat)
+
 /-- `float()` of the exact decimal `±c × 10^x` -/
 def roundDecimal (neg : Bool) (c : Nat) (x : Int) : F64 :=
   if c = 0 then .fin neg 0 (-1074)
   else if x + (numDigits c : Int) > 310 then .inf neg
   else if x + (numDigits c : Int) < -330 then .fin neg 0 (-1074)
   else
-    match (if x ≥ 0 then roundRatio (c * 10 ^ x.toNat) 1 else roundRatio c (10 ^ (-x).toNat)) with
+    match roundRatio (decRatio c x).1 (decRatio c x).2 with
     | some (m, q) => .fin neg m q
     | none => .inf neg
 
@@ -131,19 +141,27 @@ def digitsOf (D : Nat) : Str :=
   let t := stripTrailingZeros (natStr D)
   if t.isEmpty then ['0'] else t
 
-/-- shortest digits and decimal point position of the positive double `m × 2^q`:
-the value is `0.d₁d₂… × 10^decpt`. Seventeen significant digits always identify a
-double; should the search not find fewer, the 17-digit truncation is used. -/
-def shortestDigits (m : Nat) (q : Int) : Str × Int :=
+/-- the exact decimal expansion of the double `m × 2^q`: `(D, x)` with `m × 2^q = D × 10^x` -/
+def exactDecimal (m : Nat) (q : Int) : Nat × Int :=
+  if q ≥ 0 then (m * 2 ^ q.toNat, 0) else (m * 5 ^ (-q).toNat, q)
+
+/-- the decimal `D × 10^x` that `repr` prints for the positive double `m × 2^q`: the
+shortest one (up to 17 significant digits) that reads back as the double and is
+closest to it. Seventeen digits always suffice in IEEE arithmetic (not proved here:
+it only matters for the *length* of the output); should the search ever fail, the exact
+expansion is printed, which reads back as the double by idempotence of rounding. -/
+def shortestDecimal (m : Nat) (q : Int) : Nat × Int :=
   let v := f64Ratio m q
   let decpt := decimalPoint v.1 v.2
-  let r : Nat × Nat := match shortestSearch m q v.1 v.2 decpt 18 1 with
-    | some r => r
-    | none =>
-      let s : Int := 17 - decpt
-      ((if s ≥ 0 then v.1 * 10 ^ s.toNat / v.2 else v.1 / (v.2 * 10 ^ (-s).toNat)), 17)
-  -- `D` may be `10^k` (all nines rounded up): one more digit before the point
-  (digitsOf r.1, decpt + (((natStr r.1).length : Int) - (r.2 : Int)))
+  match shortestSearch m q v.1 v.2 decpt 18 1 with
+  | some r => (r.1, decpt - (r.2 : Int))
+  | none => exactDecimal m q
+
+/-- digits (without trailing zeros) and decimal point position: the value is
+`0.d₁d₂… × 10^decpt`. `D` may be `10^k` (all nines rounded up): the position moves. -/
+def shortestDigits (m : Nat) (q : Int) : Str × Int :=
+  let r := shortestDecimal m q
+  (digitsOf r.1, r.2 + ((natStr r.1).length : Int))
 
 /-- `repr` layout of digits `0.ds × 10^decpt` -/
 def reprLayout (ds : Str) (decpt : Int) : Str :=
